@@ -56,7 +56,7 @@ func (r *rec) Count(k string, n int) {
 func (r *rec) Nontriv(k string) { r.mu.Lock(); r.Nontrivial = append(r.Nontrivial, k); r.mu.Unlock() }
 func (r *rec) Sample(v interface{}) {
 	r.mu.Lock()
-	if len(r.Samples) < 2 {
+	if len(r.Samples) < 2 && v != nil {
 		r.Samples = append(r.Samples, v)
 	}
 	r.mu.Unlock()
@@ -72,7 +72,11 @@ func (r *rec) Violation(key, desc string, replay interface{}) {
 	r.seenViol[key] = true
 	r.Violations = append(r.Violations, violationRec{key, desc, replay})
 }
-func (r *rec) Inconclusive(why string) { r.mu.Lock(); r.Inconcl = append(r.Inconcl, why); r.mu.Unlock() }
+func (r *rec) Inconclusive(why string) {
+	r.mu.Lock()
+	r.Inconcl = append(r.Inconcl, why)
+	r.mu.Unlock()
+}
 
 func (r *rec) mergeInto(c *vf.Ctx) {
 	r.mu.Lock()
